@@ -507,10 +507,21 @@ def gen_twin(rng, N, CK):
             attr.insert(0, txt)
         err_exp = f"Some(EvExp {{ level: {lv if lv else 5}, mode: Mode::{mode} }})"
         feats["err"] = txt
-    # attr.rs quirk: parent / follows_from must precede target
-    tgt = [a for a in attr if a.startswith("target =")]
-    rest = [a for a in attr if not a.startswith("target =")]
-    attr = rest + tgt
+    # order of the attribute arguments: a uniformly random permutation (separate stream, so the rest of the
+    # corpus does not depend on it) among those the pinned attr.rs accepts -- it rejects `parent = ..` and
+    # `follows_from = ..` once a `target = ..` has been seen, so target stays behind those two
+    rng3 = random.Random(N * 999983 + 777 + CK * 131)
+    def order_ok(a):
+        t = [i for i, x in enumerate(a) if x.startswith("target =")]
+        pf = [i for i, x in enumerate(a) if x.startswith("parent =") or x.startswith("follows_from =")]
+        return not t or not pf or t[0] > max(pf)
+    while True:
+        rng3.shuffle(attr)
+        if order_ok(attr):
+            break
+    pos = {x.split("(")[0].split(" ")[0]: i for i, x in enumerate(attr)}
+    if "level" in pos and ("ret" in pos or "err" in pos):
+        feats["order"] = ("ret<level" if pos.get("ret", 99) < pos["level"] else "") + ("err<level" if pos.get("err", 99) < pos["level"] else "") or "level-first"
     attr_txt = ", ".join(attr)
 
     # ---------------- body
